@@ -77,7 +77,36 @@ impl<'t, 'a> LitGen<'t, 'a> {
     fn stmt(&mut self) -> String {
         self.counter += 1;
         let n = self.counter;
-        match self.t.below(22) {
+        match self.t.below(26) {
+            22 => {
+                // the same value twice inside one construct
+                let (value, text) = self.lit(true);
+                for key in ["user", "pass"] {
+                    self.planted.push(Planted { value: value.clone(), text: text.clone(), ident: Some(Some(key.to_string())), reported: true, free: false, tag: "same-value-twice-object" });
+                }
+                format!("const o{n} = {{ user: {text}, pass: {text} }};")
+            }
+            23 => {
+                let (value, text) = self.lit(true);
+                for _ in 0..2 {
+                    self.planted.push(Planted { value: value.clone(), text: text.clone(), ident: Some(None), reported: true, free: false, tag: "same-value-twice-call" });
+                }
+                format!("x = a.concat({text}, b, {text});")
+            }
+            24 => {
+                let (value, text) = self.lit(true);
+                for _ in 0..2 {
+                    self.planted.push(Planted { value: value.clone(), text: text.clone(), ident: Some(None), reported: true, free: false, tag: "same-value-twice-plus" });
+                }
+                format!("x = {text} + a + {text};")
+            }
+            25 => {
+                let (value, text) = self.lit(true);
+                for _ in 0..3 {
+                    self.planted.push(Planted { value: value.clone(), text: text.clone(), ident: Some(None), reported: true, free: false, tag: "same-value-thrice-array" });
+                }
+                format!("x = [{text}, {text}, a, {text}];")
+            }
             0 => {
                 let kw = *self.t.pick(&["var", "let", "const"]);
                 let name = format!("v{n}");
